@@ -32,7 +32,7 @@ PointVals == [k \in 1..3 |-> [point |-> Lens3[k]]] \o << [point |-> <<0>>], [poi
 Named(g) == [ct |-> 3, content |-> [t |-> "NamedGroup", g |-> g]]
 Expl(k) == [ct |-> 1, content |-> [t |-> "ExplicitPrime", p |-> Lens3[k], a |-> Lens3[(k % 3) + 1], b |-> Lens3[((k + 1) % 3) + 1],
                                     base |-> Lens3[k], order |-> Lens3[(k % 3) + 1], cofactor |-> Lens3[((k + 1) % 3) + 1]]]
-EcVals == [k \in 1..4 |-> Named(<<0, 23, 258, 65535>>[k])] \o [k \in 1..3 |-> Expl(k)]
+EcVals == [k \in 1..6 |-> Named(<<0, 23, 258, 65535, 29, 30>>[k])] \o [k \in 1..3 |-> Expl(k)]
           \o << [ct |-> 1, content |-> [t |-> "ExplicitPrime", p |-> <<>>, a |-> <<>>, b |-> <<>>, base |-> <<>>, order |-> <<>>, cofactor |-> <<>>]],
                 [ct |-> 1, content |-> [t |-> "ExplicitPrime", p |-> Lens3[3], a |-> Lens3[3], b |-> Lens3[3], base |-> Lens3[3], order |-> Lens3[3], cofactor |-> Lens3[3]]] >>
 EcdhVals == Concat([j \in 1..Len(EcVals) |-> [k \in 1..3 |-> [params |-> EcVals[j], public |-> Lens3[k]]]])
@@ -134,7 +134,15 @@ CasCutCases ==
         sg == IF flag = 1 THEN SignedNew[2] ELSE SignedOld[2]
         e == SubEnc(sub, v) \o EncSigned(sg) IN
     [k1 \in 1..Len(e) |-> Mk("cut", "parse_content_and_signature", sub, flag, SubSeq(e, 1, k1 - 1), <<>>, 0)]])
-ASSUME TLCSet(1, LongTailCases \o CasCutCases \o PairSweep \o EncCases(DhSignVals, EncDhParams, "parse_dh_params") \o AmbCases \o EncCases(DhVals, EncDhParams, "parse_dh_params") \o EncCases(PointVals, EncEcPoint, "ECPoint::parse")
+(* the generic function with a content parser of the caller's that looks one byte ahead *)
+PeekCases ==
+  Concat([q \in 1..4 |->
+    LET flag == <<0, 1, 0, 1>>[q]  sg == IF flag = 1 THEN SignedNew[(q % 4) + 1] ELSE SignedOld[(q % 2) + 1]
+        e == <<40 + q>> \o EncSigned(sg) IN
+    << [kind |-> "cas", fn |-> "parse_content_and_signature", sub |-> "peek", ext |-> flag, bytes |-> e \o Sfx[(q % 3) + 1],
+        want |-> [content |-> [first |-> 40 + q, next |-> EncSigned(sg)[1]], sig |-> sg], extra |-> Len(Sfx[(q % 3) + 1])] >>
+    \o [k1 \in 1..3 |-> Mk("cut", "parse_content_and_signature", "peek", flag, SubSeq(e, 1, k1 - 1), <<>>, 0)]])
+ASSUME TLCSet(1, LongTailCases \o PeekCases \o CasCutCases \o PairSweep \o EncCases(DhSignVals, EncDhParams, "parse_dh_params") \o AmbCases \o EncCases(DhVals, EncDhParams, "parse_dh_params") \o EncCases(PointVals, EncEcPoint, "ECPoint::parse")
                  \o EncCases(EcVals, EncEcParameters, "parse_ec_parameters") \o EncCases(EcdhVals, EncEcdhParams, "parse_ecdh_params")
                  \o EncCases(SignedNew, EncSigned, "parse_digitally_signed") \o EncCases(SignedOld, EncSigned, "parse_digitally_signed_old")
                  \o CutCases(DhVals, EncDhParams, "parse_dh_params") \o CutCases(EcVals, EncEcParameters, "parse_ec_parameters")
